@@ -9,6 +9,11 @@
 #include <cds/gc/dhp.h>
 #include <cds/os/thread.h>
 
+#if defined(KHIZMAX_LIBCDS_VERIF)
+// Verification build: the loop of scan() that collects the hazard pointers is reported to the verification scheduler
+namespace cdsverif { void scan_collect_begin() noexcept; void scan_collect_end() noexcept; }
+#endif
+
 namespace cds { namespace gc { namespace dhp {
 
     namespace {
@@ -384,6 +389,9 @@ namespace cds { namespace gc { namespace dhp {
         plist.reserve( plist_size );
 
         // Stage 1: Scan HP list and insert non-null values in plist
+#   if defined(KHIZMAX_LIBCDS_VERIF)
+        cdsverif::scan_collect_begin();
+#   endif
         thread_record* pNode = thread_list_.load( atomics::memory_order_acquire );
         while ( pNode ) {
             if ( pNode->thread_id_.load( std::memory_order_relaxed ) != cds::OS::c_NullThreadId ) {
@@ -399,6 +407,9 @@ namespace cds { namespace gc { namespace dhp {
 
             pNode = pNode->next_;
         }
+#   if defined(KHIZMAX_LIBCDS_VERIF)
+        cdsverif::scan_collect_end();
+#   endif
 
         // Store plist size for next scan() call (vector reallocation optimization)
         if ( plist.size() > plist_size )
